@@ -83,7 +83,7 @@ def gen_case(rnd):
             order = []
     sqlpre = [sg.gen_pred(rnd)] if rnd.random() < 0.25 else []
     return dict(rows=rows, dims=dims, mets=mets, filters=filters, ungrouped=ungrouped, composite=composite, order=order, limit=limit, offset=offset,
-                sqlpre=sqlpre, placeholder=rnd.random() < 0.3, autoparse=rnd.random() < 0.25, tgran=tgran, bare_dims=rnd.random() < 0.6)
+                sqlpre=sqlpre, placeholder=rnd.random() < 0.3, autoparse=rnd.random() < 0.25, tgran=tgran, bare_dims=rnd.random() < 0.6, user_style=rnd.random() < 0.5)
 
 
 def dim_name(i, e):
@@ -112,8 +112,12 @@ def real(case):
         con.executemany("insert into t values (?,?,?,?,?,?,?)", case["rows"])
     q = "{model}." if case["placeholder"] else ""
     mets = []
+    def user_text(f, qq):
+        # filters the way users write them: no outer parentheses, lower-case connectives (a top-level OR next to another filter must stay grouped)
+        t = sg.sql_top(f, qq)
+        return t.replace(" OR ", " or ").replace(" AND ", " and ") if case.get("user_style") else sg.sql(f, qq)
     for j, (a, e, fl) in enumerate(case["mets"]):
-        filters = [sg.sql(f, "{model}.") for f in fl] or None
+        filters = [user_text(f, "{model}.") for f in fl] or None
         if case["autoparse"] and e is not None and a in ("sum", "avg", "min", "max", "count"):
             mets.append(Metric(name="m%d" % j, sql="%s(%s)" % (a.upper(), sg.sql(e, q)), filters=filters))       # aggregation parsed out of the expression
         else:
@@ -127,7 +131,7 @@ def real(case):
     L.add_model(m)
     nm = names(case)
     kw = dict(metrics=["t.m%d" % j for j in range(len(case["mets"]))], dimensions=["t." + dim_name(i, e) for i, e in enumerate(case["dims"])],
-              filters=[sg.sql(f, "t.") for f in case["filters"]], ungrouped=case["ungrouped"])
+              filters=[user_text(f, "t.") for f in case["filters"]], ungrouped=case["ungrouped"])
     if case["order"]:
         kw["order_by"] = ["t.%s%s" % (nm[i], " DESC" if desc else "") for i, desc in case["order"]]
     if case["limit"] is not None:
